@@ -106,6 +106,29 @@ def check(ctx):
         ctx.check(T.classify(mir.fn_name(rfr)) == "order-preserving-remove" and lib.tail(mir.fn_name(rfr), 1) == "remove", "C06.b",
                   "%s:removes-by-index-in-order" % fk, f.loc(rb), "Vec::remove(index)", "the entry is removed with %s" % mir.fn_name(rfr))
         Ls = [L for L in LP.find_loops(f) if L.driver is not None and rb in f.reach_from(L.some_t) and f.dominates(L.some_t, rb)]
+        # the search for the reactor's entry is reached on every path on which the table has an entry for the key: the only
+        # licensed early return is the failed lookup of the key - a guard on secondary state (a per-reactor count, an index, a
+        # flag that some other site keeps up to date) can skip a registration that is still in the list
+        heads_ = [L_.header for L_ in Ls] + [b_ for b_, t_, fr_ in f.iter_calls() if fr_ and T.classify(mir.fn_name(fr_)) == "first-match-search"]
+        fails_ = []
+        for b_, t_, fr_ in f.iter_calls():
+            if fr_ and lib.tail(mir.fn_name(fr_), 2) in ("HashMap::get_mut", "HashMap::get", "HashMap::remove"):
+                fails_ += [fail_t for (sb_, ok_t, fail_t) in lib.result_arms(f, b_)]
+        # (the lookup's result may travel in a tuple before it is matched: `let (id, entry) = match kind { .. => (id, map.get_mut(&id)) }`)
+        lk_ = {b_ for b_, t_, fr_ in f.iter_calls() if fr_ and lib.tail(mir.fn_name(fr_), 2) in ("HashMap::get_mut", "HashMap::get", "HashMap::remove")}
+        for (sb_, pl_, tg_, ow_) in lib.discr_switches(f):
+            if lib.place_type(f, pl_).startswith("core::option::Option<"):
+                os_ = origins(f, {"copy": pl_})
+                if os_ and all(o_[0] == "call" and o_[1] in lk_ for o_ in os_):
+                    if 0 in tg_:
+                        fails_.append(tg_[0])
+                    elif 1 in tg_ and ow_ is not None:       # `let Some(x) = .. else`: the None side is the fall-through
+                        fails_.append(ow_)
+        wsk = lib.path_to_return_avoiding(f, [0], set(heads_) | set(fails_)) if heads_ else [0]
+        ctx.check(wsk is None, "C06.b", "%s:search-reached-unless-key-absent" % fk, "%s:%d" % (f.file, f.line),
+                  "every returning path passes the search of the list or the failed lookup of the key",
+                  "a path returns before the list is searched although the table may hold an entry for the key (a guard on "
+                  "secondary state can skip a live registration)", lib.render_path(f, wsk) if wsk and heads_ else None)
         if not Ls and position_idiom(ctx, prog, f, fk, rb, rt_, idp):
             continue
         if not ctx.check(len(Ls) == 1, "C06.b", "%s:removal-inside-search-loop" % fk, f.loc(rb), "", "the removal is not inside one search loop (nor the position()+remove idiom)"):
